@@ -579,8 +579,8 @@ func (cu *CellUnion) decode(d *decoder) {
 		return
 	}
 	const maxCells = 1000000
-	if n > maxCells {
-		d.err = fmt.Errorf("too many cells (%d; max is %d)", n, maxCells)
+	if n < 0 || n > maxCells {
+		d.err = fmt.Errorf("invalid number of cells (%d; max is %d)", n, maxCells)
 		return
 	}
 	*cu = make([]CellID, n)
